@@ -5,6 +5,7 @@ package main
 
 import (
 	"fmt"
+	"go/constant"
 	"go/ast"
 	"go/token"
 	"go/types"
@@ -125,10 +126,14 @@ func (c *VerifCtx) verifyFunction(ct *Contract) (res *FuncResult) {
 				continue
 			}
 			ex.clauseProps = cl.Props
-			g := ex.proveSpec(cl.Exprs[0], info, env2, r.pc)
-			ex.oblige("ensures", fmt.Sprintf("%d", cl.Index), ct.Stub.Pos(), r.pc, g, "ensures "+cl.Text)
+			for _, g := range ex.proveSplit(cl.Exprs[0], info, env2, r.pc) {
+				n0 := len(ex.obls)
+				ex.oblige("ensures", fmt.Sprintf("%d", cl.Index), ct.Stub.Pos(), r.pc, g, "ensures "+cl.Text)
+				if len(ex.obls) > n0 {
+					ex.obls[len(ex.obls)-1].Pos = token.Position{Filename: cl.File, Line: cl.Line}
+				}
+			}
 			ex.clauseProps = nil
-			ex.obls[len(ex.obls)-1].Pos = token.Position{Filename: cl.File, Line: cl.Line}
 		}
 		if !ct.NoFrame {
 			ex.frameCheck(ct, info, env, pre, r.st, r.pc)
@@ -283,7 +288,21 @@ func (ex *Exec) frameCheck(ct *Contract, info *types.Info, env *SpecEnv, pre, po
 	sort.Strings(names)
 	alloc0 := pre.get("alloc", SArr(SRef, SBool))
 	for _, name := range names {
-		if strings.HasPrefix(name, "ghost|") || name == "alloc" || name == "chcap" {
+		if strings.HasPrefix(name, "ghost|") {
+			// ghost state: a callee that changes a ghost log must declare it, since
+			// callers assume undeclared logs unchanged
+			grp := ghostGroup(name)
+			if grp == "" || wild["ghostgroup:"+grp] || (strings.HasPrefix(grp, "events(") && wild["ghostgroup:events(\"*\")"]) {
+				continue
+			}
+			fin := post.heap[name]
+			ini := pre.get(name, fin.sort)
+			if fin != ini {
+				ex.oblige("frame", name, ct.Stub.Pos(), pc, Eq(fin, ini), "the ghost log "+grp+" is unchanged (or add `modifies "+grp+"` so that callers know)")
+			}
+			continue
+		}
+		if name == "alloc" || name == "chcap" {
 			continue
 		}
 		fin := post.heap[name]
@@ -364,6 +383,14 @@ func (ex *Exec) modTargets(e ast.Expr, info *types.Info, pre *SpecEnv, allowed m
 			if ok {
 				allowed["chclosed"] = append(allowed["chclosed"], ch.Ref)
 			}
+		case "wire":
+			wild["ghostgroup:wire()"] = true
+		case "chanlog":
+			wild["ghostgroup:chanlog["+typeKey(info.Instances[id].TypeArgs.At(0))+"]()"] = true
+		case "cryptolog":
+			wild["ghostgroup:cryptolog()"] = true
+		case "events":
+			wild["ghostgroup:events(\""+constant.StringVal(info.Types[x.Args[0]].Value)+"\")"] = true
 		case "anything":
 			// modifies anything(): no frame claim at all for arrays matching the prefix
 			for name := range heapSorts {
@@ -552,4 +579,29 @@ func conjuncts(e ast.Expr) []ast.Expr {
 		}
 	}
 	return []ast.Expr{e}
+}
+
+// ghostGroup: the modifies designator that covers a ghost state component
+// ("" = exempt from the frame check).
+func ghostGroup(name string) string {
+	switch {
+	case strings.HasPrefix(name, "ghost|wire."):
+		return "wire()"
+	case strings.HasPrefix(name, "ghost|send|"), strings.HasPrefix(name, "ghost|recv|"):
+		rest := strings.SplitN(name, "|", 3)[2]
+		if i := strings.LastIndex(rest, "."); i >= 0 {
+			return "chanlog[" + rest[:i] + "]()"
+		}
+	case strings.HasPrefix(name, "ghost|seal."), strings.HasPrefix(name, "ghost|open."), strings.HasPrefix(name, "ghost|aead."),
+		strings.HasPrefix(name, "ghost|hkdf."), strings.HasPrefix(name, "ghost|hash."), strings.HasPrefix(name, "ghost|hmac."):
+		return "cryptolog()"
+	case strings.HasPrefix(name, "ghost|ev."):
+		rest := strings.TrimPrefix(name, "ghost|ev.")
+		if i := strings.LastIndex(rest, "."); i >= 0 {
+			return "events(\"" + rest[:i] + "\")"
+		}
+	case strings.HasPrefix(name, "ghost|lockheld."):
+		return "lock balance"
+	}
+	return ""
 }
